@@ -50,6 +50,38 @@ func genTimerConfig(ch *Chooser, prop, tier string, disabled map[string]bool) *R
 	return cfg
 }
 
+// pickTimerBase: the configured timeout of view 0. Ordinary values, exact powers of two (the doubling then lands exactly
+// on 2^63 at one view), neighbours of powers of two, arbitrary values, and the extremes. Every class is exactly
+// representable in the library's floating-point arithmetic (below 2^53 or a power of two), so the expected value of
+// every view is base*2^v to the nanosecond.
+func pickTimerBase(ch *Chooser) time.Duration {
+	switch c := ch.Pick("base", 10); c {
+	case 5:
+		return time.Duration(1) << uint(ch.Pick("base-pow2", 63))
+	case 6:
+		k := uint(2 + ch.Pick("base-pow2n", 51))
+		return time.Duration(1)<<k + time.Duration(2*ch.Pick("base-side", 2)-1)
+	case 7:
+		return time.Duration(1 + ch.Pick("base-any", 1<<40))
+	case 8:
+		return time.Duration(1 + ch.Pick("base-small", 16))
+	case 9:
+		return []time.Duration{time.Duration(math.MaxInt64), 1<<53 - 1, 1 << 62}[ch.Pick("base-extreme", 3)]
+	default:
+		return []time.Duration{time.Millisecond, 100 * time.Millisecond, time.Second, 4 * time.Second, time.Minute}[c]
+	}
+}
+
+// satView: the first view whose nominal timeout no longer fits (where saturation begins) for this base.
+func satView(base time.Duration) uint64 {
+	for v := uint64(0); v < 64; v++ {
+		if nominalTimeout(base, v) == time.Duration(math.MaxInt64) {
+			return v
+		}
+	}
+	return 64
+}
+
 var viewClasses = []uint64{0, 1, 2, 3, 5, 8, 13, 20, 31, 32, 33, 34, 40, 62, 63, 64, 65, 100, 199, 200, 1 << 31, 1<<32 - 1, 1 << 32, 1<<63 - 1, 1 << 63, ^uint64(0) - 1, ^uint64(0)}
 
 // nominal: base*2^v in exact arithmetic, saturating at the largest duration.
@@ -179,7 +211,7 @@ func RunTimerComp(w *World) {
 	r := &timerRig{w: w}
 	r.defer_ = w.ch.Pick("deferred-reader", 3) == 2
 	w.enableYields()
-	r.base = []time.Duration{time.Millisecond, 100 * time.Millisecond, time.Second, 4 * time.Second, time.Minute}[w.ch.Pick("base", 5)]
+	r.base = pickTimerBase(w.ch)
 	r.t = Electiontrigger.NewTimerBasedElectionTrigger(r.base, nil)
 	r.checkTimeoutFunction()
 	holdP := []int{0, 0, 300, 1000}[w.ch.Pick("hold-mode", 4)]
@@ -217,8 +249,14 @@ func RunTimerComp(w *World) {
 			}
 		case op <= 2: // register
 			x := hv{uint64(1 + w.ch.Pick("h", heights)), uint64(w.ch.Pick("v", 6))}
-			if w.ch.Pick("v-class", 12) == 11 {
+			switch w.ch.Pick("v-class", 12) {
+			case 11:
 				x.v = viewClasses[w.ch.Pick("v-which", len(viewClasses))]
+			case 10:
+				// around the view where the timeout of this base stops fitting
+				if sv := satView(r.base) + uint64(w.ch.Pick("v-sat", 3)); sv >= 1 {
+					x.v = sv - 1
+				}
 			}
 			if r.cur != nil && w.ch.Pick("same-pair", 4) == 3 {
 				x = r.cur.hv
@@ -269,12 +307,18 @@ func RunTimerComp(w *World) {
 					d = r.base / 2
 				}
 			case 2:
-				d = r.base * time.Duration(1+w.ch.Pick("adv-mult", 40))
+				d = r.base
+				if m := time.Duration(1 + w.ch.Pick("adv-mult", 40)); r.base < time.Duration(1)<<48 {
+					d = r.base * m
+				}
 			default:
 				d = time.Duration(1+w.ch.Pick("adv-ms", 50)) * time.Millisecond
 			}
 			if d <= 0 {
 				d = time.Millisecond
+			}
+			if d > time.Duration(1)<<55 {
+				d = time.Duration(1) << 55 // about a year per step: the simulated clock stays far from its own limits
 			}
 			w.action("advance")
 			w.ev("advance %v", d)
